@@ -325,6 +325,16 @@ func (c *Ctx) bin(op Op, a, b *Term) *Term {
 			return c.BV(w, v)
 		}
 	}
+	// an operation between a constant and an ite tree with constant leaves (a
+	// table lookup) stays such a tree: fold the leaves
+	if op != OpMul {
+		if b.IsConst() && constLeaves(a, 64) {
+			return c.mapLeaves(a, func(k *Term) *Term { return c.bin(op, k, b) })
+		}
+		if a.IsConst() && constLeaves(b, 64) {
+			return c.mapLeaves(b, func(k *Term) *Term { return c.bin(op, a, k) })
+		}
+	}
 	switch op {
 	case OpAdd:
 		if a.IsConst() {
